@@ -324,6 +324,8 @@ impl Scenario for C01 {
             // in the pool the second of two conflicting txs is the hostile one
         }
         let creator_pk = w.keys[0].pk;
+        // injected: one hostile item per run, by entry path
+        r.fault(&format!("hostile_tx_via_{}", plan.path), 1);
         let mut twin_ok = false;
         match plan.path.as_str() {
             "pool" => {
